@@ -319,7 +319,8 @@ func TestC14(t *testing.T) {
 	}
 	r.Set("entry_points_checked_while_halted", ms)
 	r.Set("methods_excluded", facadeExclude)
-	finish(t, r, r.N(20, 40), "bridge/*", "l1info/*")
+	c14Driver(r)
+	finish(t, r, r.N(20, 40), "bridge/*", "l1info/*", "driver/halted/does-not-advance", "driver/cleared-by-removing-reorg/converged")
 }
 
 var _ = context.Background
